@@ -116,7 +116,7 @@ PENDING = {
 }
 
 
-NOT_YET = {'C07': 'serializability proof in progress (statements in coq/Props/C07.v)'}
+NOT_YET = {}
 
 
 def main():
